@@ -262,6 +262,9 @@ def install(lib):
             raise
 
     def b_reversed(ex, x):
+        if isinstance(x, Seq):
+            from .models import _RevSeq
+            return _RevSeq(x)        # same view as x[::-1]
         items = ex.concrete_iter(x)
         if items is None:
             raise Unsupported("reversed of symbolic sequence")
@@ -773,7 +776,55 @@ def install(lib):
             acc = ex.call(f, [acc, l], {})
         return acc
 
-    tree_util = NS("jax.tree_util", {"tree_map": tree_map, "tree_leaves": tree_leaves, "tree_reduce": tree_reduce})
+    class _TreeDef:
+        """structure of a pytree of our value domain (the tree itself with its leaves ignored)"""
+        def __init__(self, template):
+            self.template = template
+
+        def pyvc_getattr(self, ex, attr):
+            if attr == "num_leaves":
+                return len(tree_leaves_of(self.template))
+            raise Unsupported(f"treedef attribute {attr}")
+
+    def tree_rebuild(t, it):
+        if t is None:
+            return None
+        if isinstance(t, (list, tuple)):
+            out = [tree_rebuild(i, it) for i in t]
+            return tuple(out) if isinstance(t, tuple) else out
+        if isinstance(t, dict):
+            vals = {k: tree_rebuild(t[k], it) for k in sorted(t.keys(), key=repr)}
+            return {k: vals[k] for k in t}
+        if isinstance(t, Rec) and t.frozen:
+            st = _static_fields(t)
+            r = Rec(t.cls, {k: (t.f[k] if k in st else tree_rebuild(t.f[k], it)) for k in t.f}, module=t.module, frozen=True)
+            return r
+        return next(it)
+
+    def tree_flatten(ex, x, is_leaf=None):
+        used(ex, "jax.tree_util.tree_flatten / tree_unflatten / tree_structure: leaves in a fixed order + the structure; unflatten(structure, leaves) puts them back in that order")
+        if is_leaf is not None:
+            raise Unsupported("tree_flatten with is_leaf")
+        return (tree_leaves_of(x), _TreeDef(x))
+
+    def tree_structure(ex, x, is_leaf=None):
+        return tree_flatten(ex, x, is_leaf)[1]
+
+    def tree_unflatten(ex, treedef, leaves):
+        if not isinstance(treedef, _TreeDef):
+            raise Unsupported("tree_unflatten with an unknown treedef")
+        ls = ex.concrete_iter(leaves)
+        if ls is None and hasattr(leaves, "unpack"):
+            ls = leaves.unpack(ex, len(tree_leaves_of(treedef.template)))
+        if ls is None:
+            raise Unsupported("tree_unflatten of symbolic leaves")
+        ls = list(ls)
+        if len(ls) != len(tree_leaves_of(treedef.template)):
+            raise RaiseEx("ValueError", msg="tree_unflatten: wrong number of leaves")
+        return tree_rebuild(treedef.template, iter(ls))
+
+    tree_util = NS("jax.tree_util", {"tree_map": tree_map, "tree_leaves": tree_leaves, "tree_reduce": tree_reduce, "tree_flatten": tree_flatten,
+                                     "tree_unflatten": tree_unflatten, "tree_structure": tree_structure})
 
     def lax_cond(ex, pred, tf, ff, *ops):
         used(ex, "jax.lax.cond(p, f, g, *ops) evaluates exactly one branch: f(*ops) if p else g(*ops) (un-vmapped)")
